@@ -173,6 +173,79 @@ fn all_containers(bytes: &[u8], kvs: &[Kv], version: u64, auts: &[TableDfa], mma
     .and_then(|x| x)
 }
 
+/// Light variant for large families: every version, shared layout, one
+/// container; stream, len, verify kind, get of every key and of its last-byte
+/// neighbours, a lower-bound range at a sample of keys.
+pub fn run_model_light(kvs: &[Kv], st: &mut Stats) -> Result<u64, String> {
+    let mut n = 0u64;
+    for version in [1u64, 2, 3] {
+        let bytes = codec::encode(kvs, &opts(version, Layout::Shared, false));
+        let r = guard(|| {
+            let f = Fst::new(&bytes[..]).map_err(|e| format!("open failed: {:?}", e))?;
+            let mut cnt = 0u64;
+            let mut s = f.stream();
+            let mut i = 0usize;
+            while let Some((k, v)) = s.next() {
+                if i >= kvs.len() || k != &kvs[i].0[..] || v.value() != kvs[i].1 {
+                    return Err(format!("stream item {} is {}={} but the model has {:?}", i, key_str(k), v.value(), kvs.get(i).map(|x| (key_str(&x.0), x.1))));
+                }
+                i += 1;
+            }
+            if i != kvs.len() || f.len() != kvs.len() {
+                return Err(format!("stream ended after {} of {} items (len() = {})", i, kvs.len(), f.len()));
+            }
+            let want_verify = if version >= 3 { "Ok" } else { "ChecksumMissing" };
+            if err_kind(&f.verify()) != want_verify {
+                return Err(format!("verify() gave {} expected {}", err_kind(&f.verify()), want_verify));
+            }
+            let model = model_of(kvs);
+            let step = (kvs.len() / 3000).max(1);
+            for (k, v) in kvs.iter().step_by(step) {
+                cnt += 3;
+                if f.get(k).map(|o| o.value()) != Some(*v) {
+                    return Err(format!("get({}) = {:?}, expected {}", key_str(k), f.get(k).map(|o| o.value()), v));
+                }
+                for d in [1u8, 255] {
+                    let mut m = k.clone();
+                    if let Some(l) = m.last_mut() {
+                        *l = l.wrapping_add(d);
+                    }
+                    if f.get(&m).map(|o| o.value()) != model.get(&m).copied() {
+                        return Err(format!("get({}) disagrees with the model", key_str(&m)));
+                    }
+                }
+            }
+            let rstep = (kvs.len() / 40).max(1);
+            for (idx, (k, _)) in kvs.iter().enumerate().step_by(rstep) {
+                cnt += 1;
+                let mut b = k.clone();
+                if let Some(l) = b.last_mut() {
+                    *l = l.wrapping_sub(1);
+                }
+                let want = kvs.iter().filter(|x| x.0 >= b).count();
+                let mut s = f.range().ge(&b).into_stream();
+                let mut c = 0usize;
+                let mut first: Option<Vec<u8>> = None;
+                while let Some((kk, _)) = s.next() {
+                    if first.is_none() {
+                        first = Some(kk.to_vec());
+                    }
+                    c += 1;
+                }
+                if c != want {
+                    return Err(format!("range ge({}) yields {} items (first {:?}), the model has {} (key index {})", key_str(&b), c, first.map(|x| key_str(&x)), want, idx));
+                }
+            }
+            Ok(cnt)
+        })
+        .and_then(|x| x)
+        .map_err(|e| format!("v{} shared file of {} bytes: {}", version, bytes.len(), e))?;
+        n += r;
+        st.count(&format!("files_v{}", version), 1);
+    }
+    Ok(n)
+}
+
 fn opts(version: u64, layout: Layout, any_only: bool) -> EncodeOpts {
     EncodeOpts { version, ty: 0, layout, any_trans_only: any_only }
 }
@@ -340,6 +413,14 @@ pub fn replay(case: &Value) -> Result<String, String> {
             let mut st = Stats::default();
             run_model(&kvs, &auts, true, &mut st).map(|n| format!("{} queries agree", n))
         }
+        "light" => {
+            let mut st = Stats::default();
+            run_model_light(&kvs_from(&case["kvs"]), &mut st).map(|n| format!("{} queries agree", n))
+        }
+        "light-big" => {
+            let mut st = Stats::default();
+            run_model_light(&big_dense_family(), &mut st).map(|n| format!("{} queries agree", n))
+        }
         "gate" => run_gate().map(|(n, _)| format!("{} gate cases as expected", n)),
         _ => run_golden(&auts).map(|n| format!("{} golden queries agree", n)),
     }
@@ -437,6 +518,26 @@ pub fn plan(tier: Tier) -> Plan {
             }));
         }
     }
+    for part in 0..32usize {
+        p.units.push(unit("fanout-x-output-width-grid-v1-v2-v3", format!("grid part {}", part), move |st, rep| {
+            for (_, kvs) in fan_width_grid(part, 32) {
+                st.states += 3;
+                st.nontrivial += 3;
+                match run_model_light(&kvs, st) {
+                    Ok(n) => { st.evals += n; st.transitions += n; }
+                    Err(msg) => rep.violation(format!("grid model {} keys from {}", kvs.len(), key_str(&kvs[0].0)), msg, json!({"kind": "light", "kvs": kvs_json(&kvs)})),
+                }
+            }
+        }));
+    }
+    p.units.push(unit("file-larger-than-16MiB-v1-v2-v3", "big dense".into(), move |st, rep| {
+        let kvs = big_dense_family();
+        st.states += 3;
+        match run_model_light(&kvs, st) {
+            Ok(n) => { st.evals += n; st.count("big_file_queries", n); }
+            Err(msg) => rep.violation("big dense model".into(), msg, json!({"kind": "light-big"})),
+        }
+    }));
     {
         p.units.push(unit("version-length-gate-grid", "gate".into(), move |st, rep| {
             match run_gate() {
